@@ -40,6 +40,7 @@ def main(argv=None):
     ap.add_argument('--replay')
     ap.add_argument('--explain', action='store_true')
     ap.add_argument('--repo', default=REPO)
+    ap.add_argument('--no-write', action='store_true', help='do not write evidence / replay files (dev runs on scratch copies)')
     a = ap.parse_args(argv)
     seed = int(os.environ.get('VERIF_SEED', '0') or 0)
     sys.setrecursionlimit(10000)
@@ -71,7 +72,7 @@ def main(argv=None):
     if a.explain:
         for o in run.obs:
             print("%-9s %-8s %-55s %-40s %s" % (o.verdict, o.rule, o.func, o.role, o.where))
-    code, _ = finish(run, project, error=err, seed=seed, selftest=selftest)
+    code, _ = finish(run, project, error=err, seed=seed, selftest=selftest, write=not a.no_write)
     return code
 
 
